@@ -92,6 +92,24 @@ Reach(edges, from) ==
       viaImport == R({}, 4)                                              \* files whose own imports are followed
   IN viaImport \cup {e.to : e \in {x \in edges : x.from \in viaImport \cup {from}}}   \* plus leaves of any kind
 
+\* ---- deps over two directories: one import text names different files from different importers (imports are
+\* resolved relative to the importing file first), so "already expanded" is a property of the FILE, not of the text
+Dirs == {0, 1}                        \* 0 = the directory of the main file, 1 = its sub-directory d/
+Names == 1..3
+File2(d, n) == [dir |-> d, name |-> n]
+Main2 == File2(0, 1)
+Edges2 == {[from |-> File2(d, n), sub |-> sb, name |-> m, kind |-> kd] :
+             d \in Dirs, n \in Names, sb \in BOOLEAN, m \in Names, kd \in {"import", "importstr"}}
+ValidEdge2(e) == e.sub => e.from.dir = 0                     \* `d/name` is written in the top directory only
+Target2(e) == File2(IF e.sub THEN 1 ELSE e.from.dir, e.name)
+Followed2(es) ==
+  LET RECURSIVE R(_, _)
+      R(S, n) == IF n = 0 THEN S
+                 ELSE R(S \cup {Target2(e) : e \in {x \in es : x.kind = "import" /\ x.from \in S}}, n - 1)
+  IN R({Main2}, 6)
+Deps2(es) == {Target2(e) : e \in {x \in es : x.from \in Followed2(es)}}
+MaxEdges2 == 4
+
 \* ------------------------------------------------------------------ C API callbacks
 \* a native function registered by the host (sum of its numeric arguments, a failing one, one building a JSON value
 \* through the value-construction calls) and an import callback serving a virtual file tree
@@ -112,20 +130,26 @@ PNext == PSteps /\ UNCHANGED st
 Off == pc = "off" /\ entered = FALSE /\ cfg = None /\ usedImports = FALSE
 CInit0 == \/ (Family = "config" /\ st \in {[ph |-> "seed", ext |-> e, tla |-> t] : e \in Vars, t \in Vars})
          \/ (Family = "deps" /\ st \in {[ph |-> "seed", first |-> [from |-> 1, to |-> to, kind |-> kd]] : to \in Nodes, kd \in EdgeKinds})
+         \/ (Family = "deps2" /\ st = [ph |-> "grow", es |-> {}])
          \/ (Family = "callbacks" /\ st \in {[ph |-> "case", cb |-> "native", f |-> f, n |-> n, given |-> g, out |-> NativeOutcome(f, n, g)] :
                                                   f \in Natives, n \in Arities, g \in Arities}
                                            \cup {[ph |-> "case", cb |-> "import", g |-> g, out |-> ImportOutcome(g)] : g \in ImportGraphs})
 AllEdges == {[from |-> f, to |-> t, kind |-> kd] : f \in Nodes, t \in Nodes, kd \in EdgeKinds}
 CInit == CInit0 /\ Off
 CNext == /\ UNCHANGED vars
-         /\ st.ph = "seed"
-         /\ \/ (Family = "config" /\ \E j \in JPaths, i \in Inputs, o \in Outputs, s \in Stacks :
+         /\ st.ph \in {"seed", "grow"}
+         /\ \/ (Family = "deps2" /\ Cardinality(st.es) < MaxEdges2
+                 /\ \E e \in Edges2 : /\ ValidEdge2(e) /\ e \notin st.es
+                                       /\ e.from \in Followed2(st.es)              \* only sites that are reached
+                                       /\ st' = [ph |-> "grow", es |-> st.es \cup {e}])
+            \/ (Family = "config" /\ \E j \in JPaths, i \in Inputs, o \in Outputs, s \in Stacks :
                    st' = [ph |-> "case", c |-> [ext |-> st.ext, tla |-> st.tla, jp |-> j, inp |-> i, out |-> o, stack |-> s]])
             \/ (Family = "deps" /\ \E more \in SUBSET {e \in AllEdges : e.from # e.to \/ e.kind = "import"} :
                    Cardinality(more) <= 3 /\ st' = [ph |-> "case", edges |-> {st.first} \cup more])
-Emit == st.ph = "case" =>
+Emit == st.ph \in {"case", "grow"} =>
   PrintT("REPLAY " \o ToJson(
-    CASE Family = "config" -> [fam |-> "cli.config", c |-> st.c, outcome |-> Outcome(st.c), render |-> Render(st.c)]
+    CASE Family = "deps2" -> [fam |-> "cli.deps2", edges |-> st.es, deps |-> Deps2(st.es)]
+      [] Family = "config" -> [fam |-> "cli.config", c |-> st.c, outcome |-> Outcome(st.c), render |-> Render(st.c)]
       [] Family = "deps" -> [fam |-> "cli.deps", edges |-> st.edges, deps |-> Reach(st.edges, 1)]
       [] Family = "callbacks" -> [fam |-> "cli.callbacks", c |-> st]))
 =============================================================================
